@@ -340,7 +340,7 @@ Print Assumptions C07_entity_total_links.
 (* accepted: a closed expansion (C17: closed exactly when the user's own references resolve) with well-formed
    fields, existing path parameters and known HTTP verbs converts without an error and every file links *)
 Theorem C07_entity_accepted : forall pok cs,
-  closed cs = true -> forallb ofield_ok (Entity.fields_of cs) = true -> forallb (comp_clean pok) cs = true ->
+  closed cs = true -> forallb ofield_ok_deep (Entity.fields_of cs) = true -> forallb (comp_clean pok) cs = true ->
   entity_verdict pok cs = VOk.
 Proof. exact entity_accepted. Qed.
 Print Assumptions C07_entity_accepted.
@@ -394,12 +394,12 @@ Example C07_example_entity :
   let e := mkE (bs "foo.v1") (bs "Foo") [] [key] [str "name"; mkU (bs "part") (KObject (bs "Part")) false false]
                [bs "ACTIVE"; bs "INACTIVE"] [mkEv (bs "Create") [str "name"]; mkEv (bs "Archive") []]
                [mkC None None [mkM (bs "Rename") 2 (bs "rename") [mkU (bs "name") (KScalar 9 (bs "string")) true false] None]]
-               [mkS [] [str "name"]] (Some (mkQ true [])) [SObject (bs "Part") [str "x"]] in
+               [mkS [] [str "name"]] (Some (mkQ true [] false)) [SObject (bs "Part") [str "x"]] in
   let bad := mkE (bs "foo.v1") (bs "Foo") [] [key] [mkU (bs "part") (KObject (bs "Missing")) false false]
                [bs "ACTIVE"] [] [] [] None [] in
   compile_entity e = Ok VOk /\ compile_entity bad = Ok VConvErr
   /\ match expand e with
-     | Ok cs => closed cs = true /\ forallb ofield_ok (Entity.fields_of cs) = true /\ forallb (comp_clean true) cs = true
+     | Ok cs => closed cs = true /\ forallb ofield_ok_deep (Entity.fields_of cs) = true /\ forallb (comp_clean true) cs = true
      | _ => False
      end.
 Proof. cbv zeta. vm_compute. repeat split. Qed.
